@@ -24,6 +24,8 @@ CLAUSES = {   # minimum = ~30 % of what a quick run evaluates
     "C11.dist.pairwise": 5400, "C11.dist.additive": 1600, "C11.dist.sequential": 5400, "C11.dist.phys": 3600,
     "C11.rprob": 14000, "C11.roworder": 10000,
     "C11.xoprob.genpos": 3600, "C11.xoprob.start": 1800, "C11.xoprob.value": 3000,
+    "C11.history.state": 2300, "C11.history.own": 1600, "C11.history.absent": 1600, "C11.history.linear": 1500,
+    "C11.history.order": 900, "C11.history.dist": 3200, "C11.history.spline_arg": 200,
 }
 HOOKS_REQUIRED = ["mapfn.post", "mapfn.post.internal"]
 RULE = ("seeded class-based generators.  mapfn family: distance arrays (uniform [0,3] M, cM-scale, tiny incl. denormals, "
@@ -34,7 +36,11 @@ RULE = ("seeded class-based generators.  mapfn family: distance arrays (uniform 
         "from_pandas or with auto_group=False, both map classes, int32/int64 labels; query sets with markers of the map, "
         "positions strictly between flanking markers, beyond the terminal markers, duplicates and absent chromosomes; maps "
         "produced by interp_gmap are re-used as maps when their rows qualify; both genotype-matrix classes (half of them "
-        "carrying stale positions/probabilities) for interp_genpos/interp_xoprob.  Non-trivial: a map case always is (>= 2 markers); a mapfn case is when "
+        "carrying stale positions/probabilities) for interp_genpos/interp_xoprob.  history family: one live map "
+        "object of either class goes through 3-8 in-place steps (remove/select of markers or of a whole chromosome, reorder, "
+        "sort, group, ungroup, re-assignment of vrnt_genpos in M or cM, build_spline with other kind / fill value, a sibling map "
+        "constructed with spline=<the live map's dictionary>), and after every step its answers are judged against the reference "
+        "model on its current table (queries include every chromosome that has left the map).  Non-trivial: a map case always is (>= 2 markers); a mapfn case is when "
         "it has >= 2 distances.  distinct = digest of the full generated inputs.")
 ASSUME = [
     "map functions are the textbook ones: Haldane r=(1-exp(-2d))/2, Kosambi r=tanh(2d)/2 (d in Morgans)",
@@ -49,6 +55,10 @@ ASSUME = [
     "[ast:asp] starts a new run at its first element",
     "crossover probabilities: exact 0.5 at the first variant of each chromosome of the grouped matrix; other entries are "
     "compared where the consecutive distance is >= 0 and not missing",
+    "histories: the interpolation spline is an explicitly (re)built artefact; after an edit of the table (remove, select, new "
+    "vrnt_genpos) interpolation answers are judged only once build_spline has been called again; reorder/sort/group/ungroup do "
+    "not invalidate it.  With a non-linear spline kind or an array fill value only own-marker and absent-chromosome answers "
+    "are demanded (no queries beyond the terminal markers); edits always leave >= 2 markers per remaining chromosome",
     "an exception on an in-domain call is a violation (the property promises values), key clause C11.returns",
     "a map returned by interp_gmap is itself a genetic map: when its rows qualify (>= 2 per chromosome, distinct physical "
     "positions, none missing) the own-marker law is demanded of it; the row order of that product is not fixed",
@@ -752,8 +762,293 @@ def run_xoprob(ctx, g, gm, gkind, kname, fn, qc, qp, tab, congruent, classes, co
     return xo
 
 
+# =================================================================== family 3: histories on one live map object
+HIST_CLAUSES = ("state", "own", "absent", "linear", "order", "dist", "spline_arg")
+NONLINEAR = ("nearest", "previous", "quadratic", "cubic")
+
+
+def hist_class(h, with_kind=False):
+    """Mechanism-shaped input class of the current point of a history (spline settings only where they matter)."""
+    if h["dropped_by"]:
+        base = "after %s a whole chromosome" % ("removing" if h["dropped_by"] == "remove" else "selecting away")
+    else:
+        base = {"construction": "freshly built", "remove": "after removing markers", "select": "after selecting markers",
+                "regenpos": "after re-assigning genetic positions", "order": "after reorder/sort/group only"}[h["last_edit"]]
+    if h["rebuilt"]:
+        base += " and rebuilding the spline"
+    if with_kind and h["kind"] in NONLINEAR:
+        base += " (non-linear spline kind)"
+    if with_kind and h["fill"] != "extrapolate":
+        base += " (array fill value)"
+    return base
+
+
+def model_arrays(model):
+    keys = sorted(model)
+    return (numpy.array([k[0] for k in keys], dtype="int64"), numpy.array([k[1] for k in keys], dtype="int64"),
+            numpy.array([model[k] for k in keys], dtype=float))
+
+
+def judge_history(ctx, g, gm, h, model, orig_labels, coords, W):
+    """Judge the live map's answers against the reference model evaluated on its CURRENT table."""
+    icls = hist_class(h); kcls = hist_class(h, True)
+    S = lambda meth: site_of(gm, meth)  # noqa: E731
+    mc, mp, mg = model_arrays(model)
+    tab = O.table(mc, mp, mg)
+    gscale = O.scale_of(mg)
+    WH = dict(W, history=list(h["log"]), current_chr=mc, current_phys=mp, current_gen_M=mg)
+    # ---- stored table == model (as a multiset; canonical order + run metadata when the map says it is grouped)
+    try:
+        sc, sp, sg = numpy.asarray(gm.vrnt_chrgrp), numpy.asarray(gm.vrnt_phypos), numpy.asarray(gm.vrnt_genpos, dtype=float)
+        o = numpy.lexsort((sp, sc))
+        st_ok = (len(sc) == len(mc) and numpy.array_equal(sc[o], mc) and numpy.array_equal(sp[o], mp) and O.agree(sg[o], mg, gscale)[0])
+        if st_ok and gm.is_grouped():
+            labs = numpy.array(sorted(tab), dtype="int64"); lens = numpy.array([len(tab[int(x)][0]) for x in labs], dtype="int64")
+            stix = numpy.r_[0, numpy.cumsum(lens)[:-1]]
+            st_ok = (numpy.array_equal(sc, mc) and numpy.array_equal(sp, mp) and numpy.array_equal(gm.vrnt_chrgrp_name, labs)
+                     and numpy.array_equal(gm.vrnt_chrgrp_stix, stix) and numpy.array_equal(gm.vrnt_chrgrp_spix, stix + lens)
+                     and numpy.array_equal(gm.vrnt_chrgrp_len, lens))
+    except Exception:
+        st_ok = False
+    ctx.check("C11.history.state", st_ok, S(h["log"][-1].split("(")[0]) if h["log"] else S("group"),
+              "stored table == the edited table (sorted, with matching run metadata when grouped)", icls,
+              witness=dict(WH, stored_chr=gm.vrnt_chrgrp, stored_phys=gm.vrnt_phypos, stored_gen=gm.vrnt_genpos,
+                           grouped=bool(gm.is_grouped())), coords=coords)
+    if not st_ok or not h["fresh"]:
+        return st_ok
+    linear = h["kind"] in ("linear", "slinear") and h["fill"] == "extrapolate"
+    congruent = O.is_congruent(tab)
+    # ---- own markers of the current table, asked in a random order
+    perm = g.permutation(len(mc))
+    ok, out = guarded(ctx, S("interp_genpos"), icls, coords, lambda: gm.interp_genpos(mc[perm], mp[perm]), WH)
+    if ok:
+        ctx.check("C11.history.own", O.agree(out, mg[perm], gscale)[0], S("interp_genpos"),
+                  "interpolation at own markers == stored positions", kcls, witness=dict(WH, got=out, expected=mg[perm]), coords=coords)
+    # ---- queries: current chromosomes (inside / own / outside), never-present labels and every chromosome that has left
+    qc, qp, _ = gen_query(g, {"tab": tab})
+    gone = [x for x in orig_labels if x not in tab]
+    if gone:
+        extra = [int(g.choice(gone)) for _ in range(min(4, 2 * len(gone)))] + gone[:2]
+        qc = numpy.r_[qc.astype("int64"), numpy.array(extra, dtype="int64")]
+        qp = numpy.r_[qp, numpy.array([int(x) for x in g.choice(h["orig_phys"], len(extra))], dtype="int64")]
+    exp, kind = O.ref_interp(tab, qc, qp)
+    kind = numpy.array(kind)
+    if not linear:                                # beyond the terminal markers other settings may raise / are not fixed
+        keep = kind != "outside"
+        qc, qp, exp, kind = qc[keep], qp[keep], exp[keep], kind[keep]
+    if len(qc) == 0:
+        return True
+    WQ = dict(WH, query_chr=qc, query_phys=qp)
+    ok, qg = guarded(ctx, S("interp_genpos"), icls, coords, lambda: gm.interp_genpos(qc, qp), WQ)
+    if not ok:
+        return True
+    qg = numpy.asarray(qg, dtype=float)
+    if qg.shape != qp.shape:
+        ctx.check("C11.history.absent", False, S("interp_genpos"), "one position per query", icls, witness=dict(WQ, got=qg), coords=coords)
+        return True
+    ab = kind == "absent"
+    ctx.check("C11.history.absent", bool(numpy.all(numpy.isnan(qg[ab]))) and bool(numpy.all(numpy.isfinite(qg[~ab]))),
+              S("build_spline"), "position is NaN exactly on chromosomes absent from the current table", icls,
+              witness=dict(WQ, got=qg, kind=kind.tolist(), chromosomes_that_left=gone), coords=coords)
+    known = (kind == "own") | ((kind == "inside") & linear & congruent)
+    if known.any():
+        ctx.check("C11.history.linear", O.agree(qg[known], exp[known], gscale)[0], S("build_spline"),
+                  "own markers / linear between the current flanking markers", kcls,
+                  witness=dict(WQ, got=qg, expected=exp, kind=kind.tolist()), coords=coords)
+    if linear and congruent and (~ab).any():
+        t = O.tol(O.scale_of(mg, qg)); bad = None
+        for lab in sorted(set(int(x) for x in qc[~ab])):
+            ix = numpy.flatnonzero(qc == lab)
+            P, G = tab[lab]
+            allp = numpy.r_[qp[ix], numpy.array(P, dtype="int64")]; allg = numpy.r_[qg[ix], numpy.array(G)]
+            o = numpy.argsort(allp, kind="stable")
+            dp = numpy.diff(allp[o]); dg = numpy.diff(allg[o])
+            v = numpy.flatnonzero((dg < -t) | ((dp == 0) & (numpy.abs(dg) > t)))
+            if v.size and bad is None:
+                bad = {"chromosome": lab, "phys": allp[o][int(v[0]):int(v[0]) + 2], "gen": allg[o][int(v[0]):int(v[0]) + 2]}
+        ctx.check("C11.history.order", bad is None, S("build_spline"), "order preserving along a chromosome (current markers as anchors)",
+                  icls, witness=dict(WQ, got=qg, pair=bad), coords=coords)
+    # ---- distances from physical positions == reference distances of the interpolated positions
+    o = numpy.lexsort((qp, qc)); pc, pp, pg = qc[o], qp[o], qg[o]
+    ok, d1 = guarded(ctx, S("gdist1p"), icls, coords, lambda: gm.gdist1p(pc, pp), WQ)
+    if ok:
+        ctx.check("C11.history.dist", O.agree(d1, O.ref_seqdist(pc, pg), O.scale_of(qg))[0], S("gdist1p"),
+                  "sequential distances of the interpolated positions", icls, witness=dict(WQ, got=d1), coords=coords)
+    ok, d2 = guarded(ctx, S("gdist2p"), icls, coords, lambda: gm.gdist2p(qc, qp), WQ)
+    if ok:
+        # expected from the reference positions where the property fixes them (absent -> NaN), else from the answers
+        rg = numpy.where(known | ab, exp, qg)
+        ctx.check("C11.history.dist", O.agree(d2, O.ref_pairdist(qc, rg, qc, rg), O.scale_of(qg))[0], S("gdist2p"),
+                  "pairwise distances of the positions on the current table", icls, witness=dict(WQ, got=d2, positions=rg), coords=coords)
+    return True
+
+
+def case_history(ctx, c):
+    from pybrops.popgen.gmap.StandardGeneticMap import StandardGeneticMap
+    from pybrops.popgen.gmap.ExtendedGeneticMap import ExtendedGeneticMap
+    g = ctx.rng("history", c)
+    spec = gen_map(g)
+    while len(spec["ch"]) > 120:                   # keep histories cheap
+        spec = gen_map(g)
+    clsname = ["StandardGeneticMap", "ExtendedGeneticMap"][c % 2]
+    cls = {"StandardGeneticMap": StandardGeneticMap, "ExtendedGeneticMap": ExtendedGeneticMap}[clsname]
+    how = ["ctor", "ctor", "nogroup", "pandas"][int(g.integers(0, 4))]
+    coords = [c, "history"]
+    n = len(spec["ch"])
+    perm = g.permutation(n)
+    model = {(int(a), int(b)): float(x) for a, b, x in zip(spec["ch"], spec["ph"], spec["ge"])}
+    orig_labels = sorted(set(int(x) for x in spec["ch"]))
+    h = {"dropped_by": None, "last_edit": "construction", "rebuilt": False, "fresh": True, "kind": "linear", "fill": "extrapolate",
+         "log": [], "orig_phys": numpy.unique(spec["ph"])}
+    nsteps = int(g.integers(3, 9))
+    ctx.case("history:%s/%s/%s/%d chromosomes" % (clsname, spec["gcls"], how, len(orig_labels)), clsname, how, spec["ch"], spec["ph"],
+             spec["ge"], spec["units"], perm, nsteps)
+    W = {"class": clsname, "built": how, "units": spec["units"], "map_chr": spec["ch"][perm], "map_phys": spec["ph"][perm],
+         "map_gen_M": spec["ge"][perm]}
+    if c % 53 == 0:
+        ctx.sample({"family": "history", "class": clsname, "built": how, "rows": n, "chromosomes": orig_labels, "steps": nsteps})
+    with internal("distances of a genetic map", coords):
+        ok, gm = guarded(ctx, clsname + ".__init__", "freshly built", coords, lambda: build(spec, clsname, perm, how), W)
+        if not ok:
+            return
+        S = lambda meth: site_of(gm, meth)  # noqa: E731
+        if not judge_history(ctx, g, gm, h, model, orig_labels, coords, W):
+            return
+        for step in range(nsteps):
+            cur_c = numpy.asarray(gm.vrnt_chrgrp); cur_p = numpy.asarray(gm.vrnt_phypos)
+            per = {}
+            for k in model:
+                per[k[0]] = per.get(k[0], 0) + 1
+            ops = ["reorder", "sort", "group", "ungroup", "regenpos", "build_spline", "build_spline"]
+            if len(per) >= 2:
+                ops += ["remove_chr", "remove_chr", "select_chr", "select_chr"]
+            if max(per.values()) > 2:
+                ops += ["remove_markers", "select_markers"]
+            if h["fresh"]:
+                ops += ["sibling"]
+            op = "build_spline" if (not h["fresh"] and g.random() < 0.6) else str(g.choice(ops))
+            icls = hist_class(h)
+            if op in ("remove_chr", "select_chr", "remove_markers", "select_markers"):
+                if op.endswith("_chr"):
+                    lab = int(g.choice(sorted(per)))
+                    drop = numpy.flatnonzero(cur_c == lab)
+                else:
+                    lab = int(g.choice([x for x in per if per[x] > 2]))
+                    ix = numpy.flatnonzero(cur_c == lab)
+                    drop = g.choice(ix, int(g.integers(1, per[lab] - 1)), replace=False)
+                if op.startswith("remove"):
+                    arg = drop if g.random() < 0.7 else drop.tolist()
+                    call = lambda: gm.remove(arg); meth = "remove"  # noqa: E731
+                else:
+                    keep = numpy.setdiff1d(numpy.arange(len(cur_c)), drop)
+                    if g.random() < 0.5:
+                        keep = g.permutation(keep)
+                    call = lambda: gm.select(keep); meth = "select"  # noqa: E731
+                dropped_keys = [(int(cur_c[i]), int(cur_p[i])) for i in drop]
+                h["log"].append("%s(%s of chromosome %d)" % (meth, "all rows" if op.endswith("_chr") else "%d rows" % len(drop), lab))
+                ok, _ = guarded(ctx, S(meth), icls, coords, call, dict(W, history=list(h["log"])))
+                if not ok:
+                    return
+                for k in dropped_keys:
+                    model.pop(k, None)
+                h["fresh"] = False; h["last_edit"] = meth
+                if op.endswith("_chr"):
+                    h["dropped_by"] = h["dropped_by"] or meth
+            elif op in ("reorder", "sort", "group", "ungroup"):
+                h["log"].append("%s()" % op)
+                call = (lambda: gm.reorder(g.permutation(len(cur_c)))) if op == "reorder" else getattr(gm, op)
+                ok, _ = guarded(ctx, S(op), icls, coords, call, dict(W, history=list(h["log"])))
+                if not ok:
+                    return
+                if h["last_edit"] == "construction":
+                    h["last_edit"] = "order"
+            elif op == "regenpos":
+                mode = int(g.integers(0, 3))
+                newm = {}
+                for lab in sorted(per):
+                    keys = sorted(k for k in model if k[0] == lab)
+                    if mode == 0:      # fresh congruent positions
+                        vals = numpy.cumsum(g.uniform(0, 0.3, len(keys)))
+                    elif mode == 1:    # stretched and shifted
+                        vals = numpy.array([model[k] for k in keys]) * 2.0 + 0.125
+                    else:              # shuffled (usually non-congruent)
+                        vals = g.permutation(numpy.array([model[k] for k in keys]))
+                    newm.update({k: float(v) for k, v in zip(keys, vals)})
+                arr = numpy.array([newm[(int(a), int(b))] for a, b in zip(cur_c, cur_p)], dtype=float)
+                cm = g.random() < 0.4
+                val = (arr * 100.0, "cM") if cm else (arr if g.random() < 0.5 else (arr, "M"))
+                h["log"].append("vrnt_genpos = new positions (%s)" % ("cM tuple" if cm else "M"))
+
+                def setg():
+                    gm.vrnt_genpos = val
+                ok, _ = guarded(ctx, S("vrnt_genpos"), icls, coords, setg, dict(W, history=list(h["log"])))
+                if not ok:
+                    return
+                model.clear(); model.update(newm)
+                h["fresh"] = False; h["last_edit"] = "regenpos"
+            elif op == "build_spline":
+                m = min(per.values())
+                kinds = ["linear"] * 6 + ["slinear", "nearest", "previous"] + (["quadratic"] if m >= 3 else []) + (["cubic"] if m >= 4 else [])
+                kind = str(g.choice(kinds))
+                fill = "extrapolate" if g.random() < 0.8 else numpy.array(numpy.nan)
+                variant = int(g.integers(0, 3))
+                h["log"].append("build_spline(kind=%s, fill_value=%s)" % (kind, "extrapolate" if isinstance(fill, str) else "array(nan)"))
+                if variant == 0 and kind == "linear" and isinstance(fill, str):
+                    call = lambda: gm.build_spline()  # noqa: E731
+                elif variant == 1:
+                    call = lambda: gm.build_spline(kind, fill)  # noqa: E731
+                else:
+                    call = lambda: gm.build_spline(kind=kind, fill_value=fill)  # noqa: E731
+                ok, _ = guarded(ctx, S("build_spline"), icls, coords, call, dict(W, history=list(h["log"])))
+                if not ok:
+                    return
+                h["fresh"] = True; h["rebuilt"] = True; h["kind"] = kind; h["fill"] = "extrapolate" if isinstance(fill, str) else "array"
+            else:  # sibling map built from part of the table with the live map's spline dictionary passed as spline=
+                labs = sorted(per)
+                sub = labs[: max(1, len(labs) // 2)] if g.random() < 0.5 else [int(g.choice(labs))]
+                keys = sorted(k for k in model if k[0] in sub)
+                sch = numpy.array([k[0] for k in keys], dtype="int64"); sph = numpy.array([k[1] for k in keys], dtype="int64")
+                sge = numpy.array([model[k] for k in keys]) * 3.0 + 0.5
+                sp_ = g.permutation(len(keys))
+                h["log"].append("sibling = %s(rows of chromosomes %s with other positions, spline=live.spline)" % (clsname, sub))
+                qc0, qp0, _ = gen_query(g, {"tab": O.table(*model_arrays(model))})
+                if h["kind"] in NONLINEAR or h["fill"] != "extrapolate":
+                    kk = numpy.array(O.ref_interp(O.table(*model_arrays(model)), qc0, qp0)[1]) != "outside"
+                    qc0, qp0 = qc0[kk], qp0[kk]
+                okb, before = guarded(ctx, S("interp_genpos"), icls, coords, lambda: gm.interp_genpos(qc0, qp0), W) if len(qc0) else (False, None)
+
+                def mk():
+                    if clsname == "ExtendedGeneticMap":
+                        return cls(vrnt_chrgrp=sch[sp_], vrnt_phypos=sph[sp_], vrnt_stop=sph[sp_] + 1, vrnt_genpos=sge[sp_], spline=gm.spline)
+                    return cls(vrnt_chrgrp=sch[sp_], vrnt_phypos=sph[sp_], vrnt_genpos=sge[sp_], spline=gm.spline)
+                ok, sib = guarded(ctx, clsname + ".__init__", "spline= dictionary of another map", coords, mk, dict(W, history=list(h["log"])))
+                if not ok:
+                    return
+                scls = "spline= dictionary of another map"
+                stab = O.table(sch, sph, sge)
+                others = [x for x in orig_labels if x not in sub]
+                tc = numpy.r_[sch, numpy.array([int(g.choice(others)) for _ in range(3)], dtype="int64")] if others else sch
+                tp = numpy.r_[sph, numpy.array([int(x) for x in g.choice(h["orig_phys"], 3)], dtype="int64")] if others else sph
+                e2, k2 = O.ref_interp(stab, tc, tp)
+                ok, got = guarded(ctx, S("interp_genpos"), scls, coords, lambda: sib.interp_genpos(tc, tp), W)
+                if ok:
+                    ctx.check("C11.history.spline_arg", O.agree(got, e2, O.scale_of(sge))[0], S("build_spline"),
+                              "new map answers from its own table only (own markers; NaN on chromosomes it lacks)", scls,
+                              witness=dict(W, history=list(h["log"]), query_chr=tc, query_phys=tp, got=got, expected=e2), coords=coords)
+                if okb:
+                    ok, after = guarded(ctx, S("interp_genpos"), icls, coords, lambda: gm.interp_genpos(qc0, qp0), W)
+                    if ok:
+                        ctx.check("C11.history.spline_arg", O.agree(after, before, O.scale_of(before))[0], S("build_spline"),
+                                  "the map whose spline dictionary was passed on keeps its answers", scls,
+                                  witness=dict(W, history=list(h["log"]), query_chr=qc0, query_phys=qp0, before=before, after=after),
+                                  coords=coords)
+            if not judge_history(ctx, g, gm, h, model, orig_labels, coords, W):
+                return
+        ctx.sumnote("history steps", nsteps)
+
+
 # =================================================================== driver
-FAMILIES = {"mapfn": (case_mapfn, 20000, 500000), "map": (case_map, 6000, 150000)}
+FAMILIES = {"mapfn": (case_mapfn, 20000, 500000), "map": (case_map, 6000, 150000), "history": (case_history, 1200, 40000)}
 
 
 def run_shard(ctx):
